@@ -7,7 +7,10 @@
 // of the callback returns at once, the poke they consumed must be re-issued by the drain's exit wakeup); `spurious`: the
 // main thread also calls the callback without a read; `phase2`: after some thread-bound traffic the main thread calls
 // dispatch_main() while asynchronous pushers keep going, the queue is drained by workers, the process exits from a
-// final item; `phase2_sync`: the same with synchronous callers in flight across dispatch_main() (oracle only).
+// final item; `phase2_sync`: the same with synchronous callers in flight across dispatch_main() (oracle only);
+// `resubmit`: work items dispatch_async_f more items onto the main queue from inside their callout on the bound thread
+// (chains: also the LAST item of a drain pass does so, onto the then empty list), per-producer order with the bound
+// thread as one more producer.
 // Recorded (DISPATCH_VERIF hook, harness/dv_record.h): every atomic operation on &_dispatch_main_q (obj 1) and on the
 // client threads' stacks (obj = gettid: thread event and do_next of the dispatch_sync_context_s living there), marks
 // CALL / RET / CALLOUT_BEGIN / CALLOUT_END, MARK 1 = eventfd read (a = counter), 2 = callback returned, 3 = about to call
@@ -28,7 +31,7 @@ typedef struct item {
 	int kind, serial, prod, pseq, viaq;     // viaq: 0 = directly on the main queue, k = through target queue k
 	long owner;                              // gettid of the submitter
 	_Atomic int runs; _Atomic uint64_t t_begin, t_end; uint64_t t_submit, t_ret; long ran_on;
-	uint64_t pay, paysum; int nest;
+	uint64_t pay, paysum; int nest, resub;
 } item_t;
 
 static struct dispatch_queue_static_s *mq;
@@ -53,6 +56,8 @@ int eventfd_write(int fd, eventfd_t value) {
 }
 
 static _Atomic int nest_go, nest_pushed;
+static _Atomic long st_resub, st_resub_last;
+static void resubmit_from(struct item *it, long me);
 static void item_fn(void *ctx) {
 	item_t *it = (item_t *)ctx; long me = (long)syscall(SYS_gettid);
 	dv_user(DVU_CALLOUT_BEGIN, it->kind, (unsigned long long)it->serial, (unsigned long long)((it->kind == K_ASYNC || it->kind == K_BASYNC) ? 0 : it->owner));
@@ -76,6 +81,7 @@ static void item_fn(void *ctx) {
 		if (poll(&p, 1, 0) > 0) { eventfd_t v = 0; if (eventfd_read(evfd_handle, &v) == 0) { dv_user(DVU_MARK, 4, v, 0); atomic_fetch_add(&st_nested_reads, 1); } }
 		_dispatch_main_queue_callback_4CF(NULL);
 	}
+	if (it->resub > 0 && me == main_tid && !atomic_load(&phase2_started)) resubmit_from(it, me);
 	if ((it->serial & 15) == 0) { struct timespec ts = {0, 10000 + (long)(mixh((uint64_t)it->serial) % 40000)}; nanosleep(&ts, NULL); }
 	else if ((it->serial & 7) == 1) sched_yield();
 	atomic_fetch_sub(&inside, 1);
@@ -118,6 +124,18 @@ static void submit(item_t *it, dispatch_queue_t q) {
 		else if (te == 0 || te > it->t_ret) { atomic_fetch_add(&st_early, 1); FAIL("synchronous call (kind %d) of item %d returned (stamp %llu) before its item finished (end stamp %llu)", kind, it->serial, (unsigned long long)it->t_ret, (unsigned long long)te); }
 	} else atomic_fetch_add(&n_sub_async, 1);
 }
+// a work item of the thread-bound main queue submits more work to the main queue from inside its callout
+static targ_t main_prod = { .idx = MAXT - 1, .role = 3 };
+static void resubmit_from(struct item *it, long me) {
+	int n = 1 + (int)(mixh(it->pay) % 2);
+	for (int j = 0; j < n; j++) {
+		item_t *c = mk_item((mixh(it->pay + (uint64_t)j) % 5 == 0) ? K_BASYNC : K_ASYNC, &main_prod, me, 0);
+		c->resub = j == 0 ? it->resub - 1 : 0;
+		if (mq->dq_items_tail == NULL) atomic_fetch_add(&st_resub_last, 1);   // the drain pass has nothing after this item
+		atomic_fetch_add(&st_resub, 1);
+		submit(c, (dispatch_queue_t)mq);
+	}
+}
 static void *client(void *arg) {
 	targ_t *t = (targ_t *)arg; long me = (long)syscall(SYS_gettid);
 	static pthread_mutex_t mu = PTHREAD_MUTEX_INITIALIZER;
@@ -140,6 +158,7 @@ static void *client(void *arg) {
 		else { static const int ks[] = { K_SYNC, K_BSYNC, K_AAW, K_BAAW, K_SYNC, K_AAW }; kind = ks[(r >> 20) % 6]; }
 		item_t *it = mk_item(kind, t, me, viaq);
 		if (!strcmp(scn, "nested") && t->role == 1 && (r >> 28) % 6 == 0 && viaq == 0) it->nest = 1;
+		if (!strcmp(scn, "resubmit") && t->role == 1 && (r >> 28) % 3 == 0 && viaq == 0) it->resub = 1 + (int)((r >> 32) % 4);
 		if ((r >> 8) % 5 == 0) usleep((useconds_t)((r >> 16) % 120));
 		submit(it, q);
 		if (t->role == 1) { while (atomic_load(&n_sub_async) - atomic_load(&n_done_async) > 48 && !stop_all) usleep(50); }
@@ -158,10 +177,10 @@ static void *watchdog(void *a) {
 
 static void finish(int rc) {
 	atomic_store(&dv_enabled, 0);
-	printf("S items=%ld done=%ld async=%ld overlap=%ld wrongthread=%ld order=%ld early=%ld reads=%ld nested_reads=%ld pokes=%ld spurious=%ld phase2_runs=%ld final_state=%llu final_flags=%u fails=%d\n",
+	printf("S items=%ld done=%ld async=%ld overlap=%ld wrongthread=%ld order=%ld early=%ld reads=%ld nested_reads=%ld pokes=%ld spurious=%ld phase2_runs=%ld resub=%ld resub_last=%ld final_state=%llu final_flags=%u fails=%d\n",
 		atomic_load(&n_items), atomic_load(&n_done), atomic_load(&n_sub_async), atomic_load(&st_overlap), atomic_load(&st_wrongthread),
 		atomic_load(&st_order), atomic_load(&st_early), atomic_load(&st_reads), atomic_load(&st_nested_reads), atomic_load(&st_pokes),
-		atomic_load(&st_spurious), atomic_load(&st_phase2_runs), (unsigned long long)mq->dq_state, (unsigned)mq->dq_atomic_flags, atomic_load(&nfail));
+		atomic_load(&st_spurious), atomic_load(&st_phase2_runs), atomic_load(&st_resub), atomic_load(&st_resub_last), (unsigned long long)mq->dq_state, (unsigned)mq->dq_atomic_flags, atomic_load(&nfail));
 	dv_dump(stdout); fflush(stdout);
 	_exit(rc ? rc : (atomic_load(&nfail) ? 1 : 0));
 }
@@ -206,6 +225,7 @@ int main(int argc, char **argv) {
 		pthread_create(&th[k], NULL, client, &ta[k]);
 	}
 	pthread_barrier_wait(&bar);
+	main_prod.rng = mixh(seed ^ 0x77aa55) | 1;
 	uint64_t mrng = mixh(seed ^ 0x5bd1e995) | 1; long target_before_main = 0;
 	if (phase2) target_before_main = 60 * scale;
 	for (;;) {
